@@ -227,7 +227,7 @@ func (s *Storage) SaveRegion(region *metapb.Region) error {
 // DeleteRegion deletes one region from storage.
 func (s *Storage) DeleteRegion(region *metapb.Region) error {
 	if atomic.LoadInt32(&s.useRegionStorage) > 0 {
-		return deleteRegion(s.regionStorage, region)
+		return s.regionStorage.DeleteRegion(region)
 	}
 	return deleteRegion(s.Base, region)
 }
